@@ -52,11 +52,12 @@ def _switch_cases(f, body_root):
     return out
 
 
-def check(db, rep):
-    rep.explanation = ('Writer/reader shape agreement of the compact encoding (mirror dispatch, same type and same cell partition for the empty placeholder, '
-                       'same tuple index range, cardinality cell + rows) and the bounds discipline of the unpacker, from the typed AST/CFG.')
+def check(db, rep, rule_prefix='', explain=True):
+    if explain:
+        rep.explanation = ('Writer/reader shape agreement of the compact encoding (mirror dispatch, same type and same cell partition for the empty placeholder, '
+                           'same tuple index range, cardinality cell + rows) and the bounds discipline of the unpacker, from the typed AST/CFG.')
     fn = lambda n: db.fn(n)
-    r1 = rep.rule('r1', 'SHAPE: packer and unpacker agree on dispatch, empty placeholder (same type, same cells), tuple range and set layout', 6)
+    r1 = rep.rule(rule_prefix + 'r1', 'SHAPE: packer and unpacker agree on dispatch, empty placeholder (same type, same cells), tuple range and set layout', 6)
 
     # dispatch agreement
     cc = fn(P + '::CreateCompactFrom')
@@ -157,7 +158,7 @@ def check(db, rep):
         r1.violation('set-layout:reader', '%s:%d' % (uset.file, uset.line), 'UnpackSet does not read elements from column base_y + 1 with the element type of the set')
 
     # ------------------------------------------------------------------ r2
-    r2 = rep.rule('r2', 'BOUNDS: unchecked table reads happen only under UnpackFor\'s bounds test; trailing rows are rejected', 5)
+    r2 = rep.rule(rule_prefix + 'r2', 'BOUNDS: unchecked table reads happen only under UnpackFor\'s bounds test; trailing rows are rejected', 5)
     # who may call the reading routines
     readers = {U + '::UnpackBasic': {U + '::UnpackFor'}, U + '::UnpackBool': {U + '::UnpackFor'}, U + '::UnpackTuple': {U + '::UnpackFor'}, U + '::UnpackSet': {U + '::UnpackBool'}}
     for callee, allowed in readers.items():
